@@ -38,6 +38,14 @@ def check_p(arg):
         return [("generator", "F2003 program rejected by the F2003 parser", rep)]
     if b.kind != "tree":
         return [("f2008_rejects_f2003_program", "accepted under f2003, %s under f2008 (line %s)" % (b.kind, b.line), rep)]
+    # exact comparison unless the program uses the name of an F2008-only intrinsic
+    from fparser.two.Fortran2008.intrinsics_f08 import Intrinsic_Name as N08
+    only08 = {n.lower() for n in set(N08.generic_function_names) - set(fp.F3.Intrinsic_Name.generic_function_names)}
+    uses08 = bool(only08 & set(re.findall(r"[a-z_][a-z0-9_]*", fold_outside_literals(src))))
+    if not uses08 and str(a.tree) != str(b.tree):
+        la, lb = str(a.tree).split("\n"), str(b.tree).split("\n")
+        i = next((k for k in range(min(len(la), len(lb))) if la[k] != lb[k]), 0)
+        return [("regenerated_text_differs_in_case", "f2003: %r  f2008: %r" % (la[i:i + 1], lb[i:i + 1]), rep)]
     if fold_outside_literals(str(a.tree)) != fold_outside_literals(str(b.tree)):
         la, lb = str(a.tree).split("\n"), str(b.tree).split("\n")
         i = next((k for k in range(min(len(la), len(lb))) if fold_outside_literals(la[k]) != fold_outside_literals(lb[k])), 0)
